@@ -464,4 +464,26 @@ theorem unify_complete_counterexample_diagonal :
       simp
       omega
 
+/-- the completeness statement one would like to have for the discipline `HasTy` (two inhabitants of one type,
+disjoint variables, no physical axis of size 1 or 0, identities below the counter, empty substitution,
+overlapping images): it is FALSE for the repaired model, too (`unify_complete_statement_counterexample`).
+What the diagonal witness exploits is that ONE physical axis is used at two different types; an exhaustive
+evaluation of the model on all inhabitants of the 14029 types of nesting depth ≤ 2 over the atoms 1, 2, 3 (845691
+pairs with all physical axes distinct, 290443 pairs where two occurrences AT THE SAME TYPE share one physical
+axis) found `unify` = True exactly when the images intersect. -/
+def unify_complete_statement : Prop :=
+  ∀ (ty : Ty) (e f : Axis) (nx : Nat), HasTy e ty → HasTy f ty → (∀ q ∈ e.fv, ∀ q' ∈ f.fv, q.1 ≠ q'.1) →
+    (∀ q ∈ e.fv ++ f.fv, q.2 ≠ 1 ∧ q.2 ≠ 0) → WfSt ⟨[], nx⟩ e f →
+    (∃ ρ₁ ρ₂ : Nat → Nat, InRange ρ₁ e ∧ InRange ρ₂ f ∧ e.eval ρ₁ = f.eval ρ₂) →
+    (unify FUEL e f ⟨[], nx⟩).1 = true
+
+theorem unify_complete_statement_counterexample : ¬ unify_complete_statement := by
+  intro h
+  obtain ⟨ty, e, f, he, hf, hd, hs, hwf, _, hu, hov⟩ := unify_complete_counterexample_diagonal
+  have hr : InRange (fun _ => 0) e := fun q hq =>
+    Nat.pos_of_ne_zero (hs q (List.mem_append_left _ hq)).2
+  obtain ⟨ρ₂, hr2, heq⟩ := hov _ hr
+  rw [h ty e f 5 he hf hd hs hwf ⟨_, ρ₂, hr, hr2, heq⟩] at hu
+  cases hu
+
 end C06b
